@@ -38,7 +38,9 @@ func SessPutAny(rec *world.Rec, key, val string) bool {
 }
 
 // RememberActive reports whether the remember middleware is installed in this configuration.
-func (s *Sim) RememberActive() bool { return s.Cfg.Has("remember") && !s.Cfg.UseExpire }
+func (s *Sim) RememberActive() bool {
+	return s.Cfg.Has("remember") && (!s.Cfg.UseExpire || s.Cfg.RememberBeforeExpire)
+}
 
 // IssuedCookie returns the remember cookie value newly set by the response ("" if none).
 func IssuedCookie(rec *world.Rec) string {
